@@ -1,5 +1,6 @@
 import LyModel.Base
 import LyModel.Text.Drv
+import LyModel.Lex.Drv
 import LyModel.XmlTree.Drv
 import LyModel.XsdRe.Drv
 import LyModel.Val.Drv
@@ -15,6 +16,7 @@ def dispatch (comp op : String) (args : List String) : String :=
   match comp with
   | "echo" => "ok " ++ op ++ " " ++ " ".intercalate args
   | "text" => Text.Drv.handle op args
+  | "lex" => Lex.Drv.handle op args
   | "xmltree" => XmlTree.Drv.handle op args
   | "xsdre" => XsdRe.Drv.handle op args
   | "val" => Val.Drv.handle op args
